@@ -236,12 +236,18 @@ def process_template(path, crate, repo, gen=None, depth=0):
             gen.functions[out_name]['cone'] = sorted(set(gen.functions[out_name]['props']) | side_tags | set(gen.functions[out_name]['auto']))
             props = frozenset(gen.functions[out_name]['props'])
             auto = frozenset(t + ':auto' for t in gen.functions[out_name]['auto'])
+            if kw == 'twin':
+                props = props | frozenset(['C12:twin_contract'])
+                auto = auto | frozenset(['C12:twin_contract'])
             ftags = props
             for wl in woven:
                 mt = re.search(r'//#\s*(.*)$', wl)
                 if mt:
                     tg = mt.group(1).split()
                     ftags = props if tg == ['@props'] else auto if tg == ['@auto'] else frozenset(tg)
+                    if kw == 'twin':
+                        # an async twin is verified against the SAME contract as its sync twin: any failed obligation in it is also a C12 failure
+                        ftags = ftags | frozenset(['C12:twin_contract'])
                     wl = wl[:mt.start()].rstrip()
                     if not wl.strip():
                         continue
